@@ -38,6 +38,8 @@ def families(tier):
         {'name': 'threads-reuse', 'params': {'P': 2, 'prefix': True}, 'weight': 3},
         {'name': 'threads-bf', 'params': {'P': 2, 'prefix': True, 'callers': True}, 'weight': 3},
         {'name': 'threads-sb', 'params': {'P': 2, 'prefix': True, 'callers': True}, 'weight': 3},
+        {'name': 'threads-sb', 'params': {'P': 2, 'prefix': True, 'stale': True}, 'weight': 2},
+        {'name': 'threads-bf', 'params': {'P': 2, 'prefix': True, 'stale': True}, 'weight': 2},
     ]
     if tier == 'quick':
         return q
@@ -167,6 +169,8 @@ def threads(eng, fam, P):
         def op(b, i, log):
             def f(b2, fn=None):
                 log.append(i)
+                if P.get('stale'):
+                    b2.is_file(w.p('probe'))        # recorded: validating the (stale) record takes system calls
                 if fam in ('threads-bf', 'threads-reuse'):
                     w.user_write(w.fs, fn, contents[i])
                 return ['value-of', i]
@@ -190,6 +194,9 @@ def threads(eng, fam, P):
                 FileBuilder.build(w.cache, 'n', lambda b: op(b, 0, []))
             except Exception:
                 raise PathAbort()
+        if P.get('stale'):
+            # the committed record of the key has gone stale: both threads will find that out, and both go on to execute
+            w.ext_write(w.p('probe'), eng.fresh_int('probecid'), eng.fresh_int('probemt', 0, 2 ** 62))
         info = {}
 
         def caller(b, i, log):
